@@ -38,6 +38,8 @@ Definition targets (o : op) : list nat :=
   | CopyCtor i _ | CopyAssign i _ => [i]
   | MoveCtor i j | MoveAssign i j => [i; j]
   | Write i _ _ => [i]
+  | FromWrap i _ _ _ _ => [i]
+  | ResetWrap i _ _ _ => [i]
   end.
 (* the buffer a slot's wrapper designates *)
 Definition buf_of st i : option nat :=
